@@ -57,9 +57,14 @@ class _SkipStrict(Exception):
 
 
 class _Z:
-    def __init__(self, acc, zid):
+    """per-zone violation helper.  zid = the key's zone part (a tzdb id, or the CLASS of a synthetic zone); desc/spec identify a
+    synthetic zone exactly (text for the message, parameters for the replay)"""
+
+    def __init__(self, acc, zid, desc=None, spec=None):
         self.acc = acc
         self.zid = zid
+        self.desc = desc
+        self.spec = spec
         self.fired = set()
 
     def v(self, law, what, py=None, **case):
@@ -67,8 +72,103 @@ class _Z:
             return
         self.fired.add(law)
         c = {"zone": self.zid}
+        if self.spec is not None:
+            c["synthetic"] = list(self.spec)
+            py = None
         c.update(case)
-        self.acc.violation("C05/%s/%s" % (law, self.zid), what() if callable(what) else what, c, py)
+        text = what() if callable(what) else what
+        if self.desc:
+            text = "[user zone %s] %s" % (self.desc, text)
+        self.acc.violation("C05/%s/%s" % (law, self.zid), text, c, py)
+
+
+# ---- synthetic (user-defined) zones: "for all zones" is not only the tz database --------------------------------
+
+SYN_OFFSETS = (-18 * 3600, -12 * 3600, -10 * 3600, -3600, 0, 3600, 1800, 12 * 3600, 14 * 3600, 18 * 3600)
+SYN_TODS = (0, 1800, 6 * 3600, 12 * 3600, 20 * 3600, 86399)          # local time of day (old offset) at which the clocks change
+SYN_TODS_DOUBLE = (0, 6 * 3600, 86399)
+SYN_BASE_DAY = 11109                                                  # 2000-06-01
+SYN_BACK_AFTER_DAYS = 40
+
+
+def _hm(sec):
+    sign = "-" if sec < 0 else "+"
+    sec = abs(sec)
+    return "%s%02d:%02d" % (sign, sec // 3600, sec // 60 % 60) + (":%02d" % (sec % 60) if sec % 60 else "")
+
+
+def syn_desc(spec):
+    _, before, after, tod, double = spec
+    return "%s -> %s at local %s on 2000-06-01%s" % (_hm(before), _hm(after), _hm(tod)[1:], (", back %d days later" % SYN_BACK_AFTER_DAYS) if double else "")
+
+
+def syn_class(spec):
+    _, before, after, tod, double = spec
+    d = after - before
+    return "synthetic:%s%s:%s%s" % ("gap" if d > 0 else "overlap", ">=24h" if abs(d) >= 86400 else "<24h", "at-midnight" if tod == 0 else "not-at-midnight", ":two-transitions" if double else "")
+
+
+def make_synthetic(spec):
+    """single transition: pyoda_time.testing's SingleTransitionDateTimeZone; two transitions: a DateTimeZone subclass written here
+    through the public base-class constructor and the public ZoneInterval constructor"""
+    from pyoda_time import DateTimeZone, Offset
+    from pyoda_time.time_zones import ZoneInterval
+    _, before, after, tod, double = spec
+    T = SYN_BASE_DAY * DAY_NS + tod * NS - before * NS
+    if not double:
+        from pyoda_time.testing.time_zones import SingleTransitionDateTimeZone
+        return SingleTransitionDateTimeZone(zw.mk_instant(T), Offset.from_seconds(before), Offset.from_seconds(after), "Syn")
+    T2 = T + SYN_BACK_AFTER_DAYS * DAY_NS + (after - before) * NS      # the same local time of day (new offset), 40 days later
+
+    class _ListZone(DateTimeZone):
+        def __init__(self, ivs):
+            offs = [iv.wall_offset for iv in ivs]
+            super().__init__("Syn2", False, min(offs), max(offs))
+            self._ivs = ivs
+            self._starts = [None if not iv.has_start else zw.ins_ns(iv.start) for iv in ivs]
+
+        def get_zone_interval(self, instant):
+            n = zw.ins_ns(instant)
+            k = 0
+            for i, st in enumerate(self._starts):
+                if st is not None and st <= n:
+                    k = i
+            return self._ivs[k]
+
+    ob, oa, zero = Offset.from_seconds(before), Offset.from_seconds(after), Offset.zero
+    return _ListZone([ZoneInterval(name="A", start=None, end=zw.mk_instant(T), wall_offset=ob, savings=zero),
+                      ZoneInterval(name="B", start=zw.mk_instant(T), end=zw.mk_instant(T2), wall_offset=oa, savings=zero),
+                      ZoneInterval(name="A2", start=zw.mk_instant(T2), end=None, wall_offset=ob, savings=zero)])
+
+
+def synthetic_specs():
+    out = []
+    for before in SYN_OFFSETS:
+        for after in SYN_OFFSETS:
+            if after == before:
+                continue
+            for tod in SYN_TODS:
+                out.append(("syn", before, after, tod, False))
+            for tod in SYN_TODS_DOUBLE:
+                out.append(("syn", before, after, tod, True))
+    return out
+
+
+def chain_is_a_partition(z, L):
+    """the C04 chain laws on a walked list (precondition of the brute-force oracle for a user zone)"""
+    if not L or L[0][0] is not None or L[-1][1] is not None:
+        return "walk does not run from the start to the end of time"
+    zmin, zmax = z.min_offset.seconds, z.max_offset.seconds
+    for k, t in enumerate(L):
+        if k and (t[0] != L[k - 1][1] or (t[2], t[3], t[4]) == (L[k - 1][2], L[k - 1][3], L[k - 1][4])):
+            return "intervals %r and %r do not abut or do not differ" % (L[k - 1], t)
+        if not (zmin <= t[3] <= zmax):
+            return "wall offset outside the advertised min/max in %r" % (t,)
+        for q in zw.probe_points(t):
+            inst = zw.mk_instant(q)
+            if zw.iv_tuple(z.get_zone_interval(inst)) != t or z.get_utc_offset(inst).seconds != t[3]:
+                return "point query at %s disagrees with the walk" % zw.fmt_ns(q)
+    return None
 
 
 def expected_instants(idx, L):
@@ -287,7 +387,7 @@ def check_local(acc, zc, z, idx, L, full, cals=(), zdt_offsets=True, lite=False)
                 if want is not None and (zdt_instant_ns(rl) != want or rl.calendar.id != cal.id):
                     zc.v("calendar/lenient/" + cal.id, "at_leniently of a %s local value gives another instant or calendar than in ISO" % cal.id, local_ns=L, calendar=cal.id)
     except Exception as ex:  # noqa: BLE001
-        acc.lib_exception("C05/local/%s" % zid, ex, {"zone": zid, "local_ns": L, "local": zw.fmt_ns(L)[:-1]})
+        acc.lib_exception("C05/local/%s" % zid, ex, {"zone": zid, "local_ns": L, "local": zw.fmt_ns(L)[:-1], "synthetic": zc.spec and list(zc.spec)})
 
 
 def _edge(acc, zc, z, L):
@@ -297,7 +397,7 @@ def _edge(acc, zc, z, L):
         acc.count(evaluations=1, transitions=1, states=1)
         acc.outcome("edge-of-time:count-%d-instant-not-representable" % m.count)
     except Exception as ex:  # noqa: BLE001
-        acc.lib_exception("C05/edge/%s" % zc.zid, ex, {"zone": zc.zid, "local_ns": L})
+        acc.lib_exception("C05/edge/%s" % zc.zid, ex, {"zone": zc.zid, "local_ns": L, "synthetic": zc.spec and list(zc.spec)})
 
 
 def check_start_of_day(acc, zc, z, idx, day, cals=()):
@@ -381,7 +481,7 @@ def check_round_trip(acc, zc, z, t, k, cals):
                 if zc2.calendar.id != cal.id or zdt_instant_ns(zc2) != p or p not in b2:
                     zc.v("round-trip/calendar/" + cal.id, "instant %s rendered in %s does not map back to itself" % (zw.fmt_ns(p), cal.id), instant_ns=p)
         except Exception as ex:  # noqa: BLE001
-            acc.lib_exception("C05/round-trip/%s" % zc.zid, ex, {"zone": zc.zid, "instant_ns": p})
+            acc.lib_exception("C05/round-trip/%s" % zc.zid, ex, {"zone": zc.zid, "instant_ns": p, "synthetic": zc.spec and list(zc.spec)})
 
 
 def locals_around(T, o1, o2, lite):
@@ -425,12 +525,24 @@ def _zone_item(item):
 
 def _zone_item_body(item, acc):
     zid, windows = item
-    zc = _Z(acc, zid)
+    if isinstance(zid, (tuple, list)):
+        # a work item of synthetic zones: each is examined like a tzdb zone, over the whole timeline
+        for spec in zid:
+            _examine(acc, _Z(acc, syn_class(spec), syn_desc(spec), spec), spec, windows)
+        return acc
+    return _examine(acc, _Z(acc, zid), zid, windows)
+
+
+def _examine(acc, zc, zone_ref, windows):
+    zid = zc.zid
     cals = _cals()
     try:
-        z = zw.provider("bundled")[zid]
+        z = make_synthetic(zone_ref) if zc.spec is not None else zw.provider("bundled")[zid]
+    except ImportError:
+        acc.degrade("pyoda_time.testing.time_zones.SingleTransitionDateTimeZone not importable: single-transition user zones skipped")
+        return acc
     except Exception as ex:  # noqa: BLE001
-        acc.lib_exception("C05/lookup/%s" % zid, ex, {"zone": zid})
+        acc.lib_exception("C05/lookup/%s" % zid, ex, {"zone": zid, "synthetic": zc.spec and list(zc.spec)})
         return acc
     ntr = 0
     for (lo, hi, lite) in windows:
@@ -442,6 +554,15 @@ def _zone_item_body(item, acc):
             if len(w.tuples) < 2:
                 continue
         L = w.tuples
+        if zc.spec is not None:
+            acc.count(evaluations=8 * len(L), transitions=8 * len(L))
+            why = None if w.error else chain_is_a_partition(z, L)
+            if why or len(L) != (3 if zc.spec[4] else 2):
+                # not this property's claim (C04's laws, on a zone C04 does not quantify over): recorded, and the zone is skipped
+                acc.cap("user zone [%s] is not the partition it was built as (%s): skipped" % (zc.desc, why or "%d intervals" % len(L)))
+                acc.outcome("synthetic-zone-not-a-partition")
+                continue
+            acc.outcome(zid)
         idx = zw.Index(L)
         for k in range(len(L)):
             t = L[k]
@@ -517,7 +638,11 @@ def build_items(tier, seed):
                     items.append((zid, [(a, b, True)]))
     est = lambda it: sum(((hi - lo) // (366 * DAY_NS) if lo > MIN_NS else 300) * (1 if lite else 6) for lo, hi, lite in it[1])  # noqa: E731
     items.sort(key=lambda it: (-est(it), it[0], it[1][0][0]))
-    return items
+    # user-defined zones (both tiers, complete grid): 48 work items
+    specs = synthetic_specs()
+    n = 48
+    syn = [(tuple(specs[i::n]), [(MIN_NS, MAX_NS, False)]) for i in range(n)]
+    return syn + items
 
 
 def run(ctx):
@@ -526,7 +651,11 @@ def run(ctx):
                 "transition +-{1h,1s,1ns,0}, the middle of the gap/overlap, local midnights of the four surrounding days +-1ns), plus start-of-day for the "
                 "four surrounding dates, ZonedDateTime(local, zone, offset) for the neighbouring offsets, three non-ISO calendars for the core values, and "
                 "render-and-map-back of four probe instants per interval")
-    ctx.assumptions = ["oracle = brute force over the zone's own interval list (walked as in C04, whose correctness C04/C06 establish)",
+    ctx.assumptions = ["user-defined zones: %d single-transition zones (pyoda_time.testing SingleTransitionDateTimeZone) and %d two-transition zones (a DateTimeZone "
+                       "subclass built through the public constructors) over offsets before/after in %s s x local time of day of the change in %s s, examined with the "
+                       "same law set over the whole timeline after the C04 chain laws have been confirmed on them" % (
+                           sum(1 for x in synthetic_specs() if not x[4]), sum(1 for x in synthetic_specs() if x[4]), list(SYN_OFFSETS), list(SYN_TODS)),
+                       "oracle = brute force over the zone's own interval list (walked as in C04, whose correctness C04/C06 establish)",
                        "offsets lie within +-18h, so intervals further than 19h from a local value cannot render it",
                        "local values whose instant would fall outside the range of Instant are only required not to make map_local raise",
                        "quick: canonical zones; stored periods + %d tail years + one seed-positioned block of 6 years + 9997..9999; aliases (same bytes) in the thorough tier only" % QUICK_TAIL_YEARS,
@@ -538,10 +667,11 @@ def run(ctx):
     if ctx.seed and items:
         r = ctx.seed % len(items)
         items = items[r:] + items[:r]
-    for a in pmap(_zone_item, items):
-        ctx.merge_part("zones", a)
+    for it, a in zip(items, pmap(_zone_item, items)):
+        ctx.merge_part("zones" if isinstance(it[0], str) else "user-zones", a)
     ctx.note("work_items", len(items))
-    ctx.note("zone_ids", len({it[0] for it in items}))
+    ctx.note("tzdb_zone_ids", len({it[0] for it in items if isinstance(it[0], str)}))
+    ctx.note("synthetic_user_zones", len(synthetic_specs()))
     if tier == "quick":
         ctx.cap("quick tier: recurring tails examined for %d years after their start + 6 seed-positioned years + 9997-9999; aliases not examined" % QUICK_TAIL_YEARS)
     else:
@@ -557,8 +687,13 @@ def replay(rec):
     if zid is None:
         return False
     acc = Acc()
-    zc = _Z(acc, zid)
-    z = zw.provider("bundled")[zid]
+    if case.get("synthetic"):
+        spec = tuple(case["synthetic"])
+        zc = _Z(acc, syn_class(spec), syn_desc(spec), spec)
+        z = make_synthetic(spec)
+    else:
+        zc = _Z(acc, zid)
+        z = zw.provider("bundled")[zid]
     centre = case.get("local_ns", case.get("instant_ns"))
     if centre is None and case.get("day") is not None:
         centre = case["day"] * DAY_NS
